@@ -76,3 +76,26 @@ CHECKS['C15'] = ('model_checking',
     'four-way differential over an enumerated corpus: the shipped generated bootstrap parser, the shipped GRAMMAR_MODEL, the model compiled now from _tatsu.ebnf and the parser regenerated now from that model read ~80 grammar texts covering every spelling of every production (rule coverage of _tatsu.ebnf measured; a reachable rule never hit fails the run) plus the complete single-edit neighbourhood (thousands of texts) of the short seeds; accept/reject and asjson of the resulting Grammar must agree',
     'trusted: asjson as the model observable; unreachable rules of the shipped grammar are listed with their reason in the evidence',
     'exhaustive enumeration of an edit neighbourhood, differential among four implementations')
+
+# parts added in rounds 2-3 of strengthening (DESIGN.md sections 9.1-9.2); appended to the level texts above
+_ADDED = {
+    'C02': '; feature grammars now 36 (token-rule names, cuts inside groups, left/right joins alone and under names, skip groups, verbose multi-line patterns, shared names) with parse information compared on both sides',
+    'C04': '; left-recursive grammars with cuts on all balanced parenthesised token strings',
+    'C06': '; kinds of semantics objects (unhashable, all-equal, falsy, __slots__) x two-parse histories; @name rule with keywords under every semantics',
+    'C07': '; generated model module classes; walker-class histories (subclass defined after its parent class has walked)',
+    'C08': '; (c) every short body in each lexeme position of the grammar language (token escapes, regex lexemes as patterns and as directives, constant/alert bodies, an unknown rule in every position a rule can be named), compiled and parsed; constants interpolating input text',
+    'C09': '; (d) every (parse with a setting, then plain parse) pair on one reused generated parser object',
+    'C10': '; equal-valued semantics objects, per-call settings of failing parses on a persistent generated parser, model-building options (basetype) in the call alphabet',
+    'C12': '; (c) parse information of every model node over the type-annotated templates (rule of the class; the span re-parses from that rule to the same node)',
+    'C13': '; features for printed spellings (based rules with parameters, @@whitespace :: None, keyword lists before parameterised rules, multi-line constants, bodies printed over several lines, ANTLR translations)',
+    'C14': '; every object graph of <= 3 (4) containers of kind dict/list/Node/AST with <= 2 slots against the documented JSON image; every node of a reloaded model as an entry point',
+    'C15': '; deletions and swaps of every spelling seed; every sequence of <= 2 (3) of 46 element spellings written without blanks; literal-prefix words',
+    'C16': '; family 4 (lookaheads, void, groups, closures of calls, named calls); 990 (5 k) one-rule grammars with recursion hidden behind a nullable rule call and cuts in earlier alternatives (run-time clause)',
+    'C17': '; grid of 12 (thorough: all) forbidden attribute names x 38 syntactic positions of an attribute node incl. Store context; generator/frame/code introspection routes',
+    'C18': '; two-run histories: a run interrupted by KeyboardInterrupt at each position followed by each of five ordinary runs under all their schedules',
+    'C19': '; complete tree of 3 sends x two receive() iterations alive at once on one reader, stepped packet by packet',
+    'C20': '; texts with line boundaries of every kind (LF, CR, CRLF, U+2028, VT, NEL); error rendering under every colour policy',
+}
+for _k, _v in _ADDED.items():
+    _c = CHECKS[_k]
+    CHECKS[_k] = (_c[0], _c[1] + _v, _c[2], _c[3])
